@@ -939,3 +939,149 @@ func (c *Cluster) classifyC13(v *Violation) {
 		}
 	}
 }
+
+/*******************************************************************************
+C10 quorum monitor ("counted in its quorums"): round advancement and round
+decisions are recomputed from the harness's own reachability over its DAG
+record and its own validator-set model and arithmetic.
+*******************************************************************************/
+
+// stronglySeesModel: x strongly sees w w.r.t. member set V iff more than two
+// thirds of V have an event on a path from w to x (true reachability).
+func (c *Cluster) stronglySeesModel(x, w string, V []string) bool {
+	ax := c.dag.ancestors(x)
+	if ax == nil {
+		return false
+	}
+	cnt := 0
+	for _, m := range V {
+		idx, ok := ax[m]
+		if !ok {
+			continue
+		}
+		z, ok := c.dag.byCI[m][idx]
+		if !ok {
+			continue
+		}
+		if c.dag.isAncestor(w, z) {
+			cnt++
+		}
+	}
+	return cnt >= superMajority(len(V))
+}
+
+func (c *Cluster) checkQuorums(n *SimNode) {
+	if !n.running() || n.ffDone || n.isObserver || len(c.dag.forks) > 0 {
+		return
+	}
+	h := n.core().Hashgraph()
+	store := h.Store
+	if n.quorumChecked == nil {
+		n.quorumChecked = map[string]bool{}
+	}
+	budget := 400
+	for _, de := range c.dag.order {
+		if budget <= 0 {
+			break
+		}
+		if n.quorumChecked[de.Hash] {
+			continue
+		}
+		ev, err := store.GetEvent(de.Hash)
+		if err != nil || ev.SimRound() < 0 {
+			continue
+		}
+		n.quorumChecked[de.Hash] = true
+		budget--
+		// parent round
+		pr := -1
+		for _, p := range []string{de.SelfP, de.OtherP} {
+			if p == "" {
+				continue
+			}
+			pe, err := store.GetEvent(p)
+			if err != nil || pe.SimRound() < 0 {
+				pr = -2
+				break
+			}
+			if pe.SimRound() > pr {
+				pr = pe.SimRound()
+			}
+		}
+		if pr == -2 {
+			continue
+		}
+		want := 0
+		if pr >= 0 {
+			V := c.vs.at(pr)
+			ri, err := store.GetRound(pr)
+			if err != nil {
+				continue
+			}
+			ss := 0
+			for _, w := range ri.Witnesses() {
+				if c.dag.events[w] == nil {
+					ss = -1
+					break
+				}
+				if c.stronglySeesModel(de.Hash, w, V) {
+					ss++
+				}
+			}
+			if ss < 0 {
+				continue
+			}
+			want = pr
+			if ss >= superMajority(len(V)) {
+				want = pr + 1
+			}
+		}
+		if ev.SimRound() != want {
+			c.violate("C10", "quorum", "round-not-by-two-thirds-of-round-set", "node %d gives event %s round %d; by true reachability and the validator set of its parent round %d (%d members, more than two thirds = %d) it is %d", n.idx, short(de.Hash), ev.SimRound(), pr, len(c.vs.at(maxInt(pr, 0))), superMajority(len(c.vs.at(maxInt(pr, 0)))), want)
+			return
+		}
+		c.stats.probe("c10-quorum-round-checked")
+	}
+	// decided rounds: at least a supermajority of decided witnesses, all of them
+	// by members of the round's set, each the first event of its creator in the round
+	lr := store.LastRound()
+	for r := 0; r <= lr; r++ {
+		if n.roundChecked[r] {
+			continue
+		}
+		ri, err := store.GetRound(r)
+		if err != nil || !ri.SimDecided() {
+			continue
+		}
+		V := c.vs.at(r)
+		decided := 0
+		seen := map[string]bool{}
+		for _, w := range ri.Witnesses() {
+			de := c.dag.events[w]
+			if de == nil {
+				continue
+			}
+			if !contains(V, de.Creator) {
+				c.violate("C10", "quorum", "non-member-witness", "node %d: decided round %d counts witness %s of %s who is not in the round's validator set", n.idx, r, short(w), short(de.Creator))
+				return
+			}
+			if seen[de.Creator] {
+				c.violate("C10", "quorum", "two-witnesses-of-one-creator", "node %d: round %d has two witnesses of creator %s", n.idx, r, short(de.Creator))
+				return
+			}
+			seen[de.Creator] = true
+			if _, _, f := ri.SimFame(w); f != 0 {
+				decided++
+			}
+		}
+		if decided < superMajority(len(V)) {
+			c.violate("C10", "quorum", "round-decided-below-two-thirds", "node %d: round %d is decided with %d decided witnesses; its validator set has %d members (more than two thirds = %d)", n.idx, r, decided, len(V), superMajority(len(V)))
+			return
+		}
+		if n.roundChecked == nil {
+			n.roundChecked = map[int]bool{}
+		}
+		n.roundChecked[r] = true
+		c.stats.probe("c10-quorum-decided-round-checked")
+	}
+}
